@@ -17,8 +17,8 @@ From J5V.gen Require Id62Gen RulesGen.
 From J5V.proofs Require Import RulesProofs RulesGenProofs RegexProofs RulesRegexProofs.
 From J5V.model Require Import RulesRead RulesEnum RulesNested RulesNestedSem RulesOneof RulesInlineEnum.
 From J5V.proofs Require Import RulesNestedSemProofs RulesOneofProofs.
-From J5V.model Require Import RulesCompile.
-From J5V.proofs Require Import RulesCompileProofs.
+From J5V.model Require Import RulesCompile RulesCompileTree.
+From J5V.proofs Require Import RulesCompileProofs RulesCompileTreeProofs.
 Import ListNotations.
 Local Open Scope N_scope.
 
@@ -131,6 +131,14 @@ Theorem C12_compiled_pattern_meaning : forall env idx x o p,
   exists r, re_parse p = Parsed r /\ forall s, pattern_sem p s <-> search r s.
 Proof. exact compiled_pattern_meaning. Qed.
 Print Assumptions C12_compiled_pattern_meaning.
+
+(* the rule vocabulary of schema.proto against the declaration language (see C04_schema_vocabulary_covered):
+   in particular every field of every Rules message has a place in the models — IntegerField.Rules.multiple_of
+   is RulesCompile.x_mult; the five fields of FloatField.Rules are Outside (float rules are a compile error) *)
+Theorem C12_schema_vocabulary_covered :
+  map (fun e => (fst e, map fst (snd e))) vocabulary = RulesGen.schema_vocabulary.
+Proof. exact schema_vocabulary_covered. Qed.
+Print Assumptions C12_schema_vocabulary_covered.
 
 (* ---- required presence, per field kind, as the validator sees it (the protobuf-level
    reading; the JSON-level distinction "absent vs explicit default" does not exist in a
@@ -321,6 +329,19 @@ Proof.
 Qed.
 Print Assumptions C12_oneof_members.
 
+(* ... and over the compiler with its front checks and link step ([compile_members]): no
+   hypothesis on patterns / uniqueItems of the options is left *)
+Theorem C12_oneof_members_full :
+  forall re_ok re_match pat_sem, engine_ok re_ok re_match pat_sem ->
+  forall env ds os fvs,
+    wf_env env = true ->
+    forallb member_decl ds = true ->
+    compile_members re_ok env ds = Ok os -> typed_obj ds fvs = true ->
+    (validate_obj re_ok re_match (defined_numbers env) os fvs = VAccept <-> member_obj pat_sem env ds fvs) /\
+    (validate_obj re_ok re_match (defined_numbers env) os fvs = VReject <-> ~ member_obj pat_sem env ds fvs).
+Proof. exact c12_compiled_members. Qed.
+Print Assumptions C12_oneof_members_full.
+
 Theorem C12_oneof_spec_decided : forall re_match pat_sem,
   (forall p s, re_match p s = true <-> pat_sem p s) ->
   forall env ds fvs, member_objb re_match env ds fvs = true <-> member_obj pat_sem env ds fvs.
@@ -360,6 +381,31 @@ Proof.
 Qed.
 Print Assumptions C12_inline_enum.
 
+(* ... a field over an enum carries no pattern and its items are no messages, so it is always
+   evaluable: the hypothesis goes away *)
+Theorem C12_inline_enum_full :
+  forall re_ok re_match pat_sem, engine_ok re_ok re_match pat_sem ->
+  forall idx d i c fv r l,
+    let env := env_of_decl (ie_decl (p_name d) i) in
+    wf_env env = true -> key_placement_ok d = true -> item_of (p_ty d) = TEnum r l ->
+    write_inline_enum idx d i = Ok c -> fvalue_typed d fv = true ->
+    (validate_sem re_ok re_match (defined_numbers env) (fst c) fv = VAccept <-> rule_sem pat_sem env d fv) /\
+    (validate_sem re_ok re_match (defined_numbers env) (fst c) fv = VReject <-> ~ rule_sem pat_sem env d fv).
+Proof. exact c12_inline_enum_full. Qed.
+Print Assumptions C12_inline_enum_full.
+
+(* observation (not a finding: schema.proto gives entity.primaryKey a meaning only on the keys
+   of an entity, i.e. singular properties — key_placement_ok keeps these out of the quantifier):
+   a primary key inside an ARRAY makes the array required, inside a MAP it does not *)
+Example C12_primary_key_inside_array_or_map :
+  let env := EE [] None [] in
+  let k := TKey None (Some (EK (Some (EPrimary true)) None)) None in
+  let req (o : outcome fout) := match o with Ok o => match fo_val o with Some c => c_req c | None => false end | _ => false end in
+  req (write_prop env 0%N (P [97%N] false false (PSingle k) [])) = true /\
+  req (write_prop env 0%N (P [97%N] false false (PArray None None k) [])) = true /\
+  req (write_prop env 0%N (P [97%N] false false (PMap None k) [])) = false.
+Proof. cbv zeta. repeat split; vm_compute; reflexivity. Qed.
+
 (* ... and to messages that hold messages: inline types (README "Inline Types"). A declaration
    tree [nschema] of objects (model/RulesNested.v) compiles to a message with nested
    messages; a value [mvalue] gives the field values of the message and, for every inline
@@ -383,6 +429,21 @@ Proof.
                   env Hwf s path name m v Hev Hw Hty).
 Qed.
 Print Assumptions C12_nested.
+
+(* ... and over the compiler with its front checks ([compile_schema]: every declared
+   property of the tree passes front_checks and the enum default-filter check, the proto
+   field names of each schema are pairwise different; then write_schema): no hypothesis on
+   patterns / uniqueItems is left, [tree_quant] only restricts the quantifier (primaryKey on
+   singular keys, oneof options declared as members) *)
+Theorem C12_nested_full :
+  forall re_ok re_match pat_sem, engine_ok re_ok re_match pat_sem ->
+  forall env s path name m v,
+    wf_env env = true -> tree_quant s = true ->
+    compile_schema re_ok env path name s = Ok m -> typed_tree s v = true ->
+    (validate_tree re_ok re_match (defined_numbers env) (c12_view m) v = VAccept <-> rule_tree pat_sem env s v) /\
+    (validate_tree re_ok re_match (defined_numbers env) (c12_view m) v = VReject <-> ~ rule_tree pat_sem env s v).
+Proof. exact c12_compiled_tree. Qed.
+Print Assumptions C12_nested_full.
 
 Theorem C12_nested_spec_decided : forall re_match pat_sem,
   (forall p s, re_match p s = true <-> pat_sem p s) ->
